@@ -85,6 +85,12 @@ type OutCtxD struct{ A int }
 type InCtxD2 struct{ A int }
 type OutCtxD2 struct{ A int }
 
+// an extend function over types nothing else uses: written with -g in front of other -g lines
+type GlobalIn struct{ A int }
+type GlobalOut struct{ A int }
+
+func GlobalExt(g GlobalIn) GlobalOut { return GlobalOut{A: g.A} }
+
 // second shapes for sibling methods
 type InMissing2 struct{ A int }
 type OutMissing2 struct {
